@@ -5,7 +5,7 @@ import json, os, sys
 V = os.path.dirname(os.path.dirname(os.path.abspath(__file__)))
 
 C = {
- "C01": ("exploration", "§4 C01", "wire monitor + independent signature verification over hostile forwarded agents",
+ "C01": ("exploration", "§4 C01", "wire monitor + independent signature verification over hostile forwarded agents; strace getrandom provenance (thorough)",
    "Seeded runs of the real regular handler and gensign.Run against a scripted forwarded agent (honest, keyless, wrong key, wrong data, replay, garbage, empty, failure, close) x registered-key directory states x policy/hard-key flags x handler orderings; the oracle verifies the proof of possession itself from the wire log and flags any signer call or add-identity frame without it. Challenge freshness is monitored across all runs.",
    "Trusts x/crypto ssh signature verification and the harness's own scripted agent; unpredictability is observed only as length, distinctness, bit balance (and getrandom provenance under strace in the thorough tier)."),
  "C02": ("exploration", "§4 C02", "recording csr.Signer + independent JSON/KeyID oracle",
@@ -29,8 +29,8 @@ C = {
  "C08": ("exploration", "§4 C08", "sequential reference model + keyring snapshots around lock/unlock",
    "Histories interleaving lock/unlock (right/wrong passphrases, refused by the underlying agent) with every other operation; while locked every operation must fail/return empty and the keyring snapshot must not change.",
    "Underlying agent is x/crypto's keyring behind the harness's frame-level scripted agent."),
- "C09": ("exploration", "§4 C09", "differential histories (mode on vs off) with a reference YSSHCA predicate",
-   "The same seeded history runs against two shims (no-upstream on/off) over twin keyrings; listings may differ only by the upstream certificates the reference predicate calls YSSHCA.",
+ "C09": ("exploration", "§4 C09", "sequential reference model whose hidden set comes from a reference YSSHCA predicate, both modes",
+   "The same seeded history generator runs with no-upstream mode on and off; every listing, signature and removal is compared with a sequential model whose hidden set is computed by the harness's own YSSHCA predicate over KeyIDs of every type and every near-miss (each flag conflict, missing field, wrong version, wrong-case field, free text).",
    "Reference KeyID predicate is the harness's own (C05)."),
  "C10": ("exploration", "§4 C10", "model-based histories + fault plans at every upstream request index + byte-exact relay check",
    "Histories over plain keys, certificates and hardware certificates checked against the model and the real keyring; raw request relay compared byte for byte at the scripted agent; every fault kind at every upstream request index of pilot histories and during construction.",
@@ -38,10 +38,10 @@ C = {
  "C11": ("exploration", "§4 C11", "Go race detector + porcupine linearizability + upstream-exclusion and reply-tag monitors",
    "Barrier-started rounds of 2..16 goroutines on one shim built from the real code with -race; race reports touching /repo frames, pipelined upstream requests, crossed replies, non-linearizable histories and stuck operations are violations.",
    "Sampled schedules only; evidence lists operation pairs seen overlapping."),
- "C12": ("exploration", "§4 C12", "stream oracle over real ServeAgent with panic, allocation and goroutine-table monitors",
+ "C12": ("exploration", "§4 C12", "stream oracle over real ServeAgent with panic, allocation and completion monitors; fragmented and vanished-peer delivery",
    "Exhaustive code x tiny-body table, truncated/oversized declarations and seeded frame concatenations are served by the real ServeAgent on unix-socket pairs; responses must match complete frames one to one, service may end only at a malformed frame, no panic, no allocation for oversized declarations.",
    "Well-formed grammar is the harness's conservative one."),
- "C13": ("exploration", "§4 C13", "recording YubiAgent served by real ServeAgent vs real client; fake PIV tool on PATH",
+ "C13": ("exploration", "§4 C13", "recording YubiAgent served by real ServeAgent vs real client (sequential and concurrent use of one client); fake PIV tool on PATH",
    "Arguments recorded by a harness YubiAgent are compared with the client's arguments and the client's results with the scripted results for every operation; slot listing is compared with a reference parser over hostile tool outputs.",
    "Fake yubico-piv-tool; excludes values the wire format cannot carry (see DESIGN)."),
  "C14": ("exploration", "§4 C14", "transcribed oracle over generated env/argv inputs with panic monitor",
